@@ -223,6 +223,20 @@ fn synth_cases<W: Write>(prop: &str, opts: &Opts, out: &mut W, rng: &mut Rng) {
             emit_vp8l(out, prop, &format!("synth-wrap-{which}-{field:x}-max-symbol-gt-alphabet"), &synth::hidden_max_symbol(which, field));
         }
     }
+    // valid streams whose sub-image literals have mixed, mostly maximal, cost over several production buffers
+    for k in 0..(if opts.tier_thorough { 8u64 } else { 2 }) {
+        if !opts.mine(950 + k) {
+            continue;
+        }
+        emit_vp8l(out, prop, &format!("synth-deep-{k}-valid"), &synth::long_literals_mixed(&mut rng.fork(0xdee9 + k)));
+    }
+    // invalid streams whose group count hangs on a two-symbol simple code that names the larger symbol first
+    for (k, &(hi, lo, in_red)) in [(1u32, 0u32, false), (3, 1, false), (2, 0, false), (255, 254, false), (7, 2, false), (1, 0, true), (2, 1, true)].iter().enumerate() {
+        if !opts.mine(900 + k as u64) {
+            continue;
+        }
+        emit_vp8l(out, prop, &format!("synth-order-{hi}-{lo}-{}-simple-code-order", if in_red { "red" } else { "green" }), &synth::hidden_simple_order(hi, lo, in_red));
+    }
     // invalid streams whose violation hides behind a sub-image that a reader with a wrong idea of its size swallows whole
     let mut hi = 0u64;
     for &(w, h) in &[(16u32, 1u32), (17, 3), (33, 9), (64, 64), (100, 40), (257, 5)] {
